@@ -166,3 +166,185 @@ class export_string_tail:
             if not is_placeholder_row(r):
                 want = want + '\t'.join(r) + '\n'
         return result == want
+
+
+# ------------------------------------------------------------------------------------------------ the backwards walk that recovers the header rows
+from pyvc.ghost import uf_str
+from kernpy.core.tokens import HeaderToken, SpineOperationToken, SimpleToken, TokenCategory
+from kernpy.core.tokenizers import Encoding as _Encoding
+
+TOK = 'kernpy.core.tokens.'
+A_WALK = ('abstraction for the walk step: export_token(node, options) is a function of the node (what it is: contract export_token); '
+          'whether a spine operator was cancelled before the excerpt is a property of the operator token (contract is_cancelled_at)')
+
+
+@contract(TOK + 'SpineOperationToken.is_cancelled_at', props=['C08'])
+class is_cancelled_at:
+    """an operator counts as cancelled at a stage iff a cancellation stage is recorded and it lies strictly before that stage"""
+    def inputs(g):
+        at = None if g.choice('cancelled.none', [True, False]) else g.int('cancelled_at_stage')
+        tok = g.new(SpineOperationToken, {'encoding': g.choice('encoding', ['*^', '*v', '*-']), 'category': TokenCategory.SPINE_OPERATION, 'hidden': False,
+                                          'cancelled_at_stage': at}, None)
+        return {'self': tok, 'stage': g.int('stage')}
+
+    modifies = ()
+
+    def post_recorded_and_earlier(result, self, stage):
+        if self.cancelled_at_stage is None:
+            return result == False
+        return result == (self.cancelled_at_stage < stage)
+
+
+@contract(TOK + 'SpineOperationToken.is_cancelled_at', props=['C08'], name='is_cancelled_at_summary', local=True, assumed=A_WALK)
+class is_cancelled_at_summary:
+    def model(self, stage):
+        return self.cancelled_before
+
+
+@contract(EX + 'Exporter.export_token', props=['C08'], name='export_token_summary_for_walk', local=True, assumed=A_WALK)
+class export_token_summary_for_walk:
+    def model(node, options):
+        return uf_str('walk.cell', node.id)
+
+
+def WALK_TEXT(node, options):
+    if symbolic_run():
+        return uf_str('walk.cell', node.id)
+    return Exporter().export_token(node, options)
+
+
+def CANCELLED_BEFORE(tok, stage):
+    if symbolic_run():
+        return tok.cancelled_before
+    return tok.is_cancelled_at(stage)
+
+
+def is_op(node):
+    return isinstance(node.token, SpineOperationToken)
+
+
+def header_selected(node, options):
+    return isinstance(node.token, HeaderToken) and node.token.encoding in options.spine_types
+
+
+def cancelled_operator(node, from_stage):
+    return is_op(node) and (CANCELLED_BEFORE(node.token, from_stage) or node.last_spine_operator_node.token.cancelled_at_stage == node.stage)
+
+
+def walk_cell(node, options, from_stage, operator_row):
+    """the text a node contributes to the recovered row ('' = nothing): the header of a selected spine type; in an operator record a
+    null interpretation for an operator that was cancelled before the excerpt (or that closes the split its own spine opened),
+    otherwise the exported token; in any other record nothing"""
+    return (WALK_TEXT(node, options) if header_selected(node, options)
+            else (('*' if cancelled_operator(node, from_stage) else WALK_TEXT(node, options)) if operator_row else ''))
+
+
+def walk_counts(node, options, from_stage, operator_row):
+    """does the node make its row worth keeping (anything but a placeholder written for a cancelled operator)?"""
+    return header_selected(node, options) or (operator_row and not cancelled_operator(node, from_stage))
+
+
+def mk_walk_node(e):
+    tok = e.new_any('token', [HeaderToken, SpineOperationToken, SimpleToken],
+                    {'encoding': e.str_sym('encoding', ['**kern', '**text', '*^', '*v', '*', '4c']), 'category': e.enum('category', TokenCategory), 'hidden': False,
+                     'cancelled_at_stage': e.int('cancelled_at_stage'), 'cancelled_before': e.bool('cancelled_before'), 'spine_id': e.int('spine_id', 0)})
+    optok = e.new(SpineOperationToken, {'encoding': '*^', 'category': TokenCategory.SPINE_OPERATION, 'hidden': False, 'cancelled_at_stage': e.int('op.cancelled_at_stage')}, None)
+    op = e.new(Node, {'id': e.int('op.id', 1), 'token': optok}, None)
+    parent = e.new(Node, {'id': e.int('parent.id', 0)}, None)
+    from kernpy.core.document import SignatureNodes
+    return e.new(Node, {'id': e.int('id', 1), 'token': tok, 'parent': parent, 'stage': e.int('stage', 1), 'last_spine_operator_node': op,
+                        'children': [], 'header_node': None, 'last_signature_nodes': e.new(SignatureNodes, {'nodes': {}}, None)}, None)
+
+
+@contract(EX + 'Exporter.export_string', props=['C08'], name='export_string_walk_step')
+class export_string_walk_step:
+    """One iteration of the backwards walk that rebuilds the header rows of a measure excerpt (`while next_nodes and ...`), from an
+    arbitrary row of nodes: the walk moves to the parents of the nodes, in order, one parent per node; the row recovered from the
+    nodes is the list of their contributions (walk_cell), in order; it is put in front of the rows recovered so far iff some node
+    counts (walk_counts); the rows recovered before are untouched.  Domain: every node has an operator above it (the clause about
+    the operator that closes its own split reads it)."""
+    step = 'while next_nodes and'
+    uses = ('is_cancelled_at_summary', 'export_token_summary_for_walk')
+    assumes = (A_WALK, 'domain: nodes with a spine operator above them; a non-empty row of nodes that is not the root row')
+
+    def inputs(g):
+        nodes = g.seq('next_nodes', mk_walk_node)
+        g.assume(len(nodes) > 0)
+        from contracts.shapes import mk_tree
+        from kernpy.core.document import Document
+        tree = mk_tree(g)
+        document = g.new(Document, {'tree': tree, 'measure_start_tree_stages': [], 'page_bounding_boxes': {}, 'header_stage': None}, None)
+        options = g.new(_ExportOptions, {'spine_types': g.str_subset('spine_types', ['**kern', '**text']), 'from_measure': 1, 'to_measure': None, 'token_categories': list(TokenCategory),
+                                         'kern_type': _Encoding.normalizedKern, 'instruments': None, 'show_measure_numbers': False, 'spine_ids': None}, None)
+        rows = [[g.str_sym('rows[0][0]', ['*clefG2', '4c'])]]
+        return {'self': g.new(Exporter, {}, ()), 'document': document, 'options': options, 'rows': rows, 'next_nodes': nodes, 'from_stage': g.int('from_stage', 1),
+                'to_stage': g.int('to_stage', 1), '_row_of_nodes': nodes, '_before': list(rows)}
+
+    modifies = ('rows', 'self.**')
+
+    def post_walk_moves_to_the_parents(next_nodes, row_of_nodes):
+        return next_nodes == [n.parent for n in row_of_nodes]
+
+    def post_row_recovered_in_front(rows, before, row_of_nodes, options, from_stage):
+        operator_row = len([n for n in row_of_nodes if is_op(n)]) > 0
+        want = [walk_cell(n, options, from_stage, operator_row) for n in row_of_nodes if walk_cell(n, options, from_stage, operator_row) != '']
+        keep = False
+        for n in row_of_nodes:
+            if walk_counts(n, options, from_stage, operator_row):
+                keep = True
+        if keep:
+            if len(rows) != len(before) + 1:
+                return False
+            return conj(rows[0] == want, rows[1:] == before)
+        return rows == before
+
+    def post_loop_goes_on(flow):
+        return flow == 'next'
+
+
+from contracts.c07 import mk_indexed_document
+
+
+def mk_row_node(e, with_op):
+    from kernpy.core.document import SignatureNodes
+    tok = e.new(SimpleToken, {'encoding': e.str_sym('encoding', ['4c', '=', '*']), 'category': e.enum('category', TokenCategory), 'hidden': False}, None)
+    op = None
+    if with_op:
+        optok = e.new(SpineOperationToken, {'encoding': '*^', 'category': TokenCategory.SPINE_OPERATION, 'hidden': False, 'cancelled_at_stage': e.int('op.cancelled_at_stage')}, None)
+        op = e.new(Node, {'id': e.int('op.id', 1), 'token': optok}, None)
+    return e.new(Node, {'id': e.int('id', 1), 'token': tok, 'parent': e.new(Node, {'id': e.int('parent.id', 0)}, None), 'stage': e.int('stage', 1),
+                        'last_spine_operator_node': op, 'children': [], 'header_node': None, 'last_signature_nodes': e.new(SignatureNodes, {'nodes': {}}, None)}, None)
+
+
+def mk_row_node_without_operator(e):
+    return mk_row_node(e, False)
+
+
+def mk_row_node_with_operator(e):
+    return mk_row_node(e, True)
+
+
+@contract(EX + 'Exporter.export_string', props=['C08'], name='export_string_walk_head', use_at_calls=False)
+class export_string_walk_head:
+    """At the head of the backwards walk (an excerpt that does not start at the beginning): the walk starts at the very row of nodes
+    that opens the first measure of the excerpt -- the stage recorded for that measure in the document's measure index -- and no row
+    has been recovered yet.  (With export_string_walk_step: every recovered row stems from the cells above that row, on their own
+    spine paths, and from nothing else.)"""
+    cut = 'while next_nodes and'
+
+    def inputs(g):
+        doc = mk_indexed_document(g, mk_row_node_without_operator if g.choice('operators above', ['none', 'some']) == 'none' else mk_row_node_with_operator)
+        a = g.int('from_measure', 1)
+        b = None if g.choice('to.none', [True, False]) else g.int('to_measure')
+        ids = None if g.choice('spine_ids.none', [True, False]) else g.int_set('spine_ids')
+        o = g.new(_ExportOptions, {'spine_types': ['**kern'], 'from_measure': a, 'to_measure': b, 'token_categories': [], 'kern_type': None,
+                                   'instruments': None, 'show_measure_numbers': False, 'spine_ids': ids}, None)
+        return {'self': g.new(Exporter, {}, ()), 'document': doc, 'options': o}
+
+    def requires(document, options):
+        M = len(document.measure_start_tree_stages)
+        b = options.to_measure
+        return conj(len(document.tree.stages) >= 1, options.from_measure <= M, True if b is None else conj(b >= options.from_measure, b <= M))
+
+    def cut_walk_starts_at_the_row_that_opens_the_excerpt(document, options, from_stage, next_nodes, rows):
+        return conj(from_stage == document.measure_start_tree_stages[options.from_measure - 1], next_nodes is document.tree.stages[from_stage], len(rows) == 0)
